@@ -73,6 +73,12 @@ static const char MSG[] = "Subject: t\r\n\r\nline one\r\n..stuffed\r\n\rx\r\r\nl
 
 static void enumerate(void) {
   c07_case c;
+  /* custom texts outside the qmail-queue.8 interface (first byte neither D nor Z): NUL, 'K' */
+  for (int k = 0; k < 2; k++) {
+    if (!c07_mine()) continue;
+    c07_defaults(&c, 'S', k); free(c.qq); c.qq = strdup(k ? "82,0,4b6f6b2066616b65" : "82,0,007879");
+    emit(&c, 0, "s@x", 1, R2, LIT(MSG), -1); c07_free(&c);
+  }
   for (int e = 0; e < 256; e++) {
     if (!c07_mine()) continue;
     c07_defaults(&c, 'S', e); free(c.qq); c.qq = c07_qqscript(e, 0, e % 5 == 0 ? "Dignored unless 82" : 0);
